@@ -479,6 +479,17 @@ def const_replay(script):
     return lambda name, model, detail: {'script': script}
 
 
+def native_checks(tier):
+    L = 6 if tier == 'thorough' else 5
+    return [
+        NativeCheck('C04/native/parser', ['ddsmt.nodeio.parse_smtlib'],
+                    'harness/parser_native.py', ['parse', L],
+                    bound=f'exception freedom of the parser on all strings '
+                    f'of length <= {L} over 11 representative characters '
+                    '(balanced or not)', timeout=3000),
+    ]
+
+
 def contracts(tier):
     from pyvc.interp import PyRaise  # noqa
     cs = []
